@@ -92,9 +92,18 @@ class FakeSocket:
                 ssl.SSLWantWriteError(ssl.SSL_ERROR_WANT_WRITE, "want write")
         return BlockingIOError(errno.EAGAIN, "Resource temporarily unavailable")
 
+    def reset_by_peer(self):
+        """The peer closed abortively (RST).  As on Linux: bytes already queued are still delivered by recv, but the
+        socket is no longer connected (getpeername raises ENOTCONN); afterwards recv raises ECONNRESET and send EPIPE."""
+        self.peer_gone = True
+        self.rst = True
+
     def send(self, data):
         if self.closed:
             raise OSError(errno.EBADF, "Bad file descriptor")
+        if getattr(self, "rst", False):
+            self.calls.append(("send-fail", "EPIPE"))
+            raise make_error("EPIPE", self.tls)
         tok = self.send_script.pop(0) if self.send_script else None
         data = bytes(data)
         if tok is not None:
@@ -140,6 +149,9 @@ class FakeSocket:
             self.delivered.extend(part)
             self.calls.append(("recv", len(part)))
             return part
+        if getattr(self, "rst", False):
+            self.calls.append(("recv-fail", "ECONNRESET"))
+            raise make_error("ECONNRESET", self.tls)
         if self.peer is None or self.peer.closed or self.peer.shut_wr:
             self.calls.append(("recv-eof", 0))
             return b""
